@@ -463,6 +463,16 @@ func runC10(r *simkit.Run, c Cfg) {
 			for k := 0; k < na; k++ {
 				maddrs = append(maddrs, must(multiaddr.NewMultiaddr(c10AllAddrs()[tp.Choose(len(c10AllAddrs()), "addr")])))
 			}
+			pathAddr := false
+			if tp.Chance(1, 10, "pathAddr") {
+				// a valid address that ends in a path component: nothing may
+				// follow a path, so the publisher ID cannot be appended to
+				// it. The sender says so, or sends something decodable.
+				maddrs = append(maddrs, must(multiaddr.NewMultiaddr("/unix/tmp/ipni.sock")))
+				na++
+				pathAddr = true
+				r.Probe("address-ending-in-a-path-component")
+			}
 			m.SetAddrs(maddrs)
 			// addresses with protocol codes this build does not know, at any
 			// position: the sender skips them, the rest must arrive intact
@@ -503,12 +513,21 @@ func runC10(r *simkit.Run, c Cfg) {
 			_ = hasUnknown
 			cancel()
 			t.Logf("send #%d how=%d addrs=%d -> err=%v", i, how, na, err != nil)
+			if pathAddr && err != nil && len(net.Requests()) == req0 {
+				r.Probe("send-refused-address-that-cannot-carry-the-publisher-id")
+				continue
+			}
 			// expectation: what every healthy endpoint decoded
 			want := message.Message{Cid: m.Cid, ExtraData: m.ExtraData, OrigPeer: m.OrigPeer}
 			if len(extra) != 0 {
 				want.ExtraData = extra
 			}
 			for _, a := range maddrs {
+				if pathAddr && a.String() == "/unix/tmp/ipni.sock" {
+					// sent all the same: then as an address a receiver can
+					// decode, whatever the sender made of it
+					continue
+				}
 				want.Addrs = append(want.Addrs, a.Encapsulate(must(multiaddr.NewMultiaddr("/p2p/"+pub.ID.String()))).Bytes())
 			}
 			cancelledSend := cancelCur == nil
@@ -531,7 +550,7 @@ func runC10(r *simkit.Run, c Cfg) {
 				bad := failed[e.name][q.SrvSeq]
 				got, decoded := e.bySeq[fmt.Sprint(q.SrvSeq)]
 				// whatever an endpoint decoded is what was sent
-				if decoded && !msgEqual(got, want) {
+				if decoded && !pathAddr && !msgEqual(got, want) {
 					r.Violate("c10.wire", "endpoint %s decoded cid-equal=%v addrs=%d extra=%d orig=%q; sent addrs=%d extra=%d orig=%q (each address must carry /p2p/<publisher>)", e.name, got.Cid == want.Cid, len(got.Addrs), len(got.ExtraData), got.OrigPeer, len(want.Addrs), len(want.ExtraData), want.OrigPeer)
 				}
 				if decoded {
